@@ -14,6 +14,7 @@ Line protocol of the C03 driver (the executable set-consumer models and the cano
                               (env.reset(seed=x) with generate_seed_value = g) | `reset-truthy` (the same with `if seed:`);
                               g = 0 | 1; x = `none` | an integer; answer: keep | seed <n> | entropy | raise
   toklen n                  → length of `secrets.token_urlsafe(n)`
+  declen n                  → length of the decimal text of n (`decimalLen`)
 -/
 
 def joinNats (l : List Nat) : String := " ".intercalate (l.map toString)
@@ -69,6 +70,10 @@ def step (_ : Unit) : List String → Unit × String
       else if f = "reset-truthy" then ((), showAct (({ codeShape with resetGuard := [.truthy] } : SeedShape).resetAct x g))
       else ((), "bad-op")
     | _, _ => ((), "bad-op")
+  | ["declen", n] =>
+    match n.toNat? with
+    | some n => ((), toString (decimalLen n))
+    | none => ((), "bad-op")
   | ["toklen", n] =>
     match n.toNat? with
     | some n => ((), toString (tokenUrlsafeLen n))
